@@ -1042,7 +1042,67 @@ pub fn run_malicious(ctx: &mut Ctx) {
 /// Plain-HTTP requests whose body pauses for longer than the idle timeout while the origin keeps the exchange alive (an
 /// upload that stalls, an origin that streams something meanwhile): the per-direction timers fire and the pipe restarts its
 /// two loops, dropping the pending `read` of the request body - which must not lose the rest of the body.
+/// The other direction across timer restarts: the client takes part of the response body and then does not take more for
+/// several idle timeouts, while its request body keeps trickling in (so the exchange is alive and the pipe restarts both of
+/// its loops each time the silent direction's timer fires, dropping whatever was pending). The part of the response that the
+/// client had not taken yet must still be delivered when it reads again.
+fn response_across_timer_restarts(ctx: &mut Ctx) {
+    for (version, t_ms, first_quota, stall_factor) in [(11u8, 1_000u64, 5usize, 25u64), (2, 1_000, 5, 25), (2, 30_000, 1, 15), (11, 1_000, 0, 35), (3, 1_000, 25, 12)] {
+        let stall = t_ms * stall_factor / 10;
+        let desc = format!(
+            "POST over HTTP/{} with Content-Length 80 sent one byte every {} ms; the origin answers 200 with 26 body bytes in one segment; the client takes {} of them and then nothing for {} ms (idle timeout {} ms)",
+            version, t_ms / 10, first_quota, stall, t_ms
+        );
+        begin_case(&desc);
+        let r = catch(std::panic::AssertUnwindSafe(move || {
+            let rt = tokio::runtime::Builder::new_current_thread().enable_all().start_paused(true).build().unwrap();
+            rt.block_on(async move {
+                let mut body_ev: Vec<(u64, SrcEv)> = (0..80).map(|i| (t_ms / 10, SrcEv::Chunk(vec![b'a' + (i % 26) as u8]))).collect();
+                body_ev.push((1, SrcEv::Eof));
+                let origin_ev: Vec<(u64, SrcEv)> = vec![(t_ms / 5, SrcEv::Chunk(b"HTTP/1.1 200 OK\r\nContent-Length: 26\r\n\r\nabcdefghijklmnopqrstuvwxyz".to_vec())), (1, SrcEv::Eof)];
+                let run = vfwd::run(
+                    VFwdRequest {
+                        method: "POST".into(),
+                        uri: "http://origin.test/upload".into(),
+                        version,
+                        headers: {
+                            let mut h: Vec<(String, Vec<u8>)> = vec![("content-length".into(), b"80".to_vec())];
+                            if version == 11 {
+                                h.insert(0, ("host".into(), b"origin.test".to_vec()));
+                            }
+                            h
+                        },
+                    },
+                    SrcScript { events: body_ev, consume_err_at: None },
+                    SinkScript { quotas: vec![], ..Default::default() },
+                    SrcScript { events: origin_ev, consume_err_at: None },
+                    SinkScript { quotas: vec![first_quota], writable_delays: vec![stall], ..Default::default() },
+                    t_ms,
+                )
+                .await;
+                (accepted(&run.log, 0), accepted(&run.log, 3), run.result.clone())
+            })
+        }));
+        ctx.stat("response_body_across_timer_restarts");
+        match r {
+            Err(m) => ctx.oracle_failure("panic", &format!("{}: panicked ({})", desc, m)),
+            Ok((req, body, result)) => {
+                let body_at = req.windows(4).position(|w| w == b"\r\n\r\n").map(|p| p + 4).unwrap_or(req.len());
+                if body != b"abcdefghijklmnopqrstuvwxyz" {
+                    ctx.oracle_failure(
+                        "response_body_cut_at_restart",
+                        &format!("{}: the client was sent the body {:?} (exchange result {})", desc, String::from_utf8_lossy(&body), result),
+                    );
+                } else if req.len() - body_at != 80 {
+                    ctx.oracle_failure("request_body_cut_at_restart", &format!("{}: the origin was sent {} of the 80 body bytes (exchange result {})", desc, req.len() - body_at, result));
+                }
+            }
+        }
+    }
+}
+
 pub fn run_restarts(ctx: &mut Ctx) {
+    response_across_timer_restarts(ctx);
     for (version, t_ms, pause) in [(11u8, 30_000u64, 40_000u64), (2, 30_000, 40_000), (3, 1_000, 1_700), (11, 1_000, 2_500)] {
         let desc = format!(
             "POST over HTTP/{} with Content-Length 8: 4 body bytes, a pause of {} ms (idle timeout {} ms; the origin sends an interim response every {} ms meanwhile), 4 more bytes",
